@@ -207,6 +207,16 @@ def notifications(hist, autosave, final=True):
     return ns
 
 
+def text_at(hist, autosave, k):
+    """the document after the first k+1 notifications"""
+    t, j = hist["text0"], 0
+    for n in notifications(hist, autosave)[1:k + 1]:
+        if n[0] == 1:
+            t = hist["steps"][j]["text"]
+            j += 1
+    return t
+
+
 def final_text(hist):
     return hist["steps"][-1]["text"] if hist["steps"] else hist["text0"]
 
@@ -330,11 +340,25 @@ class Runner:
             if not isinstance(steps, list) or (steps and steps[0] == -997):
                 r["judge"] = {"why": "the language server process died", "impl": steps}
                 continue
+            if steps and not isinstance(steps[0], list):
+                # (-999 message): a panic outside the notification handlers (while the harness read the server's state)
+                r["judge"] = {"why": "the language server panicked outside a handler: %s" % (
+                    sx_str(steps[1]) if len(steps) > 1 and isinstance(steps[1], list) else steps)}
+                continue
             bad = next((k for k, st in enumerate(steps) if st[0] != 0), None)
             if bad is not None:
                 st = steps[bad]
                 r["judge"] = {"why": "the handler %s at notification %d" % (
                     "panicked: " + sx_str(st[-1]) if st[0] == -999 else "returned an error", bad), "step": bad}
+                if st[0] == -999:
+                    # is it the analysis of that text itself that panics (then a fresh server panics on it too: a
+                    # defect of the checker, property C07, and there are no diagnostics to compare) or the history?
+                    t = text_at(h, autosave, bad)
+                    fr = self.h.run([[2, self.serial, int(autosave), [t]]])[0]
+                    self.serial += 1
+                    if isinstance(fr, list) and fr and isinstance(fr[0], list) and fr[0][0] == -999:
+                        r["judge"] = None
+                        r["checker_panic"] = sx_str(fr[0][-1])
                 continue
             lp = last_pub(steps, 0)
             if lp is None or fresh[i] is None:
@@ -462,6 +486,8 @@ def stats(ctx, hist, r, origin, autosave):
         ctx.count("final text: diagnostics non-empty" if fin else "final text: no diagnostics")
         if any(d[4] == 1 for d in fin):
             ctx.count("final text: has errors")
+    if r.get("checker_panic"):
+        ctx.count("skipped: the analysis of a text of the history panics in a fresh server too (C07): " + r["checker_panic"][:60])
     if r.get("noise"):
         ctx.count("message differs only in the print order of type-variable bounds (not counted as a difference)")
     ctx.case([hist["text0"]] + [st["text"] for st in hist["steps"]] + [autosave], nontrivial=nontriv,
@@ -527,8 +553,10 @@ def _run(ctx, proof, runner):
         # polling mode depends on timing: a difference must survive a second, slower run before it counts
         if not autosave:
             for i, r in enumerate(res):
-                if r["judge"] is not None:
-                    res[i] = runner.evaluate([hists[i]], autosave)[0]
+                for _ in range(2):
+                    if res[i]["judge"] is not None:
+                        ctx.count("polling mode: difference in one run, history run again")
+                        res[i] = runner.evaluate([hists[i]], autosave)[0]
         evaluated += len(hists)
         for (tag, h, _), r in zip(batch, res):
             stats(ctx, h, r, origin if origin == "generated" else "corpus", autosave)
